@@ -24,7 +24,8 @@ func init() {
 			"R6 prefix writer/reader agreement: HTTPError/WireError messages and trimErrorCodePrefix build their prefixes with the same two helpers followed by the same separator; " +
 			"R7 WireError.Is answers true only under equality of the two codes, httpError.Is only for status 416 and ErrRangeInvalid. " +
 			"R6b httpError.Error writes its `<status> <status text>` prefix on every path (no status-dependent variant). " +
-			"R5b the client reads an error body up to a constant limit; R8 a response returned by the auth transport has not had its Body closed by it.",
+			"R5b the client reads an error body up to a constant limit; R8 a response returned by the auth transport has not had its Body closed by it. " +
+			"R2 covers multi-valued case arms of the HEAD fallback; R6c the prefix built by the shared helper is used as built (nothing trims or re-slices it between the helper and the separator).",
 		NotDecided: "the message fixed point as a string fact for arbitrary message texts, and preservation of detail JSON bytes, are not decided.",
 		Technique:  "static analysis: table extraction from the package initialiser, format-verb/provenance analysis of fmt.Errorf arguments, SSA dominance",
 	})
@@ -226,6 +227,7 @@ func runC07(c *core.Ctx) {
 	c07ClientWrap(c)
 	c07Prefixes(c)
 	prefixBuiltOnEveryPath(c, "C07.R6")
+	prefixUsedAsBuilt(c, "C07.R6")
 	errorBodyLimitIsConstant(c, "C07.R5")
 	returnedResponseBodyOpen(c, "C07.R8")
 	c07Is(c)
@@ -332,13 +334,52 @@ func c07HeadFallback(c *core.Ctx, m *errModel) {
 				}
 			}
 		}
-		if st < 0 {
+		// `case A, B:` — the arm has one predecessor per listed status, none of which
+		// dominates it: take each predecessor's own `StatusCode == K` edge as a row
+		var sts []int64
+		if st >= 0 {
+			sts = append(sts, st)
+		} else {
+			seenB := map[*ssa.BasicBlock]bool{}
+			var collect func(b *ssa.BasicBlock, d int)
+			collect = func(b *ssa.BasicBlock, d int) {
+				if seenB[b] || d > 3 {
+					return
+				}
+				seenB[b] = true
+				for _, p := range b.Preds {
+					hit := false
+					for si, sb := range p.Succs {
+						if sb != b {
+							continue
+						}
+						for _, cd := range facts.EdgeConds(p, si) {
+							if x, op, y, ok := facts.Cmp(cd); ok && op == token.EQL {
+								if _, fld, isF := facts.FieldOf(facts.Resolve(x)); isF && fld == "StatusCode" {
+									if k, isK := facts.ConstInt(y); isK {
+										sts = append(sts, k)
+										hit = true
+									}
+								}
+							}
+						}
+					}
+					if !hit && len(p.Instrs) == 1 {
+						collect(p, d+1) // an empty forwarding block
+					}
+				}
+			}
+			collect(rw.at, 0)
+		}
+		if len(sts) == 0 {
 			continue
 		}
-		n++
-		tbl, has := m.StatusOf[name]
-		c.Check(has && tbl == st, "C07.R2", sprintf("head-fallback/%d", st), rw.pos, sprintf("HEAD %d -> %s, whose code maps back to %d", st, name, st),
-			sprintf("the HEAD fallback maps status %d to %s, whose code is answered with status %d by the server: a second hop changes the status", st, name, tbl))
+		for _, st := range sts {
+			n++
+			tbl, has := m.StatusOf[name]
+			c.Check(has && tbl == st, "C07.R2", sprintf("head-fallback/%d", st), rw.pos, sprintf("HEAD %d -> %s, whose code maps back to %d", st, name, st),
+				sprintf("the HEAD fallback maps status %d to %s, whose code is answered with status %d by the server: a second hop changes the status", st, name, tbl))
+		}
 	}
 	if n < 4 {
 		c.Fail("C07.R2", "head-fallback/instance-floor", fn.Pos(), sprintf("only %d status rows found in the HEAD fallback", n))
